@@ -453,8 +453,11 @@ async fn run_case(seed: u64, variant: u64, case: &Case) -> Run {
 /// The documented lifecycle, judged directly on the event trace of a session that returned:
 /// SessionStarted · (Failed | SyncStarted · Op* · (Failed | SyncFinished · ((LiveModeStarted · Op*)? · (SessionFinished | Failed))))
 /// Returns (tag, what) per defect.
-fn lifecycle(events: &[String], returned: bool, has_rx: bool) -> Vec<(&'static str, String)> {
+fn lifecycle(events: &[String], returned: bool, has_rx: bool, live: bool) -> Vec<(&'static str, String)> {
     let mut fails = vec![];
+    if !live && events.iter().any(|t| t == "LS" || t.starts_with("LR")) {
+        fails.push(("live-events-without-live-mode", format!("live-mode events in a session without live mode: {events:?}")));
+    }
     if !has_rx {
         return fails;
     }
@@ -520,7 +523,7 @@ fn emit(out: &mut Out, rtm: &tokio::runtime::Runtime, seed: u64, variant: u64, l
     out.count(&case.label);
     out.count(&format!("res={}", r.answer.rsplit("res=").next().unwrap()));
     out.count(if case.live { "live-mode" } else { "no-live-mode" });
-    for (tag, what) in lifecycle(&r.events, r.returned, case.rx) {
+    for (tag, what) in lifecycle(&r.events, r.returned, case.rx, case.live) {
         out.oracle_fail(n, tag, &what, &r.request, &r.answer);
     }
     if r.spun {
